@@ -4,7 +4,7 @@ are compared with the Lean model `poolQueryA` through the captured `simple_batch
 implementation output is judged by the property oracle and by the proved-equivalent Lean decider."""
 from . import _pool
 
-LEAN_TARGETS = ["SkaModel.Props.C02"]
+LEAN_TARGETS = ["SkaModel.Props.C02", "SkaModel.Gen.Skeleton"]
 LEVEL = "proof"
 RULE = (
     "cases: real query() calls of every strategy configuration in harness/catalog.py (all classes exported by skactiveml.pool "
@@ -19,6 +19,28 @@ ASSUMPTIONS = [
     "strategies with unseeded clustering are run with cluster_algo_dict={'random_state':0} (that finding belongs to C06)",
 ]
 TRUSTED = ["spy on simple_batch in the skactiveml.pool module namespaces (captures utilities, batch size, method, noise/choice draws)"]
+
+
+# classes whose `query` tail is the modelled scatter + simple_batch skeleton on the unchanged tree
+EXPECTED_SKELETON_A = {
+    "ContrastiveAL", "CostEmbeddingAL", "EpistemicUncertaintySampling", "ExpectedErrorReduction",
+    "ExpectedModelChangeMaximization", "ExpectedModelOutputChange", "ExpectedModelVarianceReduction",
+    "KLDivergenceMaximization", "ParallelUtilityEstimationWrapper", "ProbabilisticAL", "QueryByCommittee",
+    "RandomSampling", "UncertaintySampling",
+}
+
+
+def generate(ctx):
+    """Translator tie: regenerate Gen/Skeleton.lean from the current source (checked by `lake build`)."""
+    from ..translate import skeleton
+
+    facts, broken = skeleton.generate(EXPECTED_SKELETON_A)
+    ctx.notes["generated_obligations"] = len(facts)
+    ctx.notes["generated_discharged"] = len(facts)  # each `by decide` is discharged iff the build succeeds
+    ctx.notes["skeleton_well_formed_classes"] = sorted(c for c, f in facts.items() if f["wellFormed"])
+    for cls in broken:
+        ctx.broken.append(f"translator: the source of {cls}.query no longer has the scatter + simple_batch skeleton "
+                          f"(obligation skel_{cls}_wf flipped): {facts.get(cls)}")
 
 
 def correspond(ctx):
